@@ -744,6 +744,44 @@ def chk_c_twins(c: Case):
     c.ctx.cov.case(("c", S.name, spec1, spec2, ops_brief(ops)), nontrivial(outsA) and strip(spec1) != strip(spec2))
 
 
+def chk_c_used_twins(c: Case):
+    """(c') an estimator that has ALREADY been trained with spec1, then receives set_params(values of spec2) and is
+    fitted again, behaves like one constructed with spec2 (fit discards the earlier model; whatever an estimator
+    memoised during the earlier training must not survive the change of its parameters)"""
+    S, r = c.S, c.rng("c-used")
+    if not S.has_fit or S.cls == "BARTMAP":
+        # BARTMAP: every op draws a matrix of another shape, and a re-fit on another shape is C06's / C17's subject
+        return
+    spec1 = S.spec(r)
+    spec2 = S.spec_like(r, spec1)
+    A, B = c.build(spec2, "c-used"), c.build(spec1, "c-used")
+    if A is None or B is None:
+        return
+    with quiet():
+        kw = leaf_params(A)
+    pre = gen_ops(S, r, spec1, r.randint(1, 2))
+    pre_out = run_ops(S, B, pre)
+    if any(o[0] == "exc" for o in pre_out):
+        c.ctx.cov.hit("c-used:earlier-history-raised")
+        return
+    rep = {"spec_constructed": spec2, "spec_before_set_params": spec1, "set_params": kw, "earlier_ops": ops_replay(pre)}
+    o = outcome(lambda: B.set_params(**kw))
+    if o[0] == "exc":
+        c.violation(f"{S.cls}.set_params:valid-values-raise", f"set_params with values accepted by the constructor raised {o[1]}", rep)
+        return
+    ops = gen_ops(S, r, spec2, r.randint(1, 3))
+    ops[0] = ("fit", ops[0][1])
+    rep["ops"] = ops_replay(ops)
+    outsA, outsB = run_ops(S, A, ops), run_ops(S, B, ops)
+    d = first_diff(behav(outsA), behav(outsB))
+    if d is not None:
+        c.violation(f"{S.cls}.set_params:used-estimator-differs-from-constructed",
+                    f"a trained estimator after set_params({_brief(kw)}) and a new fit behaves differently from one constructed "
+                    f"with these values (first difference at call {d}: {ops[d][0]}; categories {_nc(outsA, d)} vs {_nc(outsB, d)})", rep)
+    c.ctx.cov.hit("c-used:differs" if d is not None else "c-used:equal")
+    c.ctx.cov.case(("c-used", S.name, spec1, spec2, ops_brief(pre), ops_brief(ops)), nontrivial(outsA) and strip(spec1) != strip(spec2))
+
+
 def _brief(kw):
     return ", ".join(f"{k}={v!r}" if not isinstance(v, np.ndarray) else f"{k}=<array{v.shape}>" for k, v in kw.items())
 
@@ -1483,9 +1521,9 @@ def _as_cmp(v):
 # ================================================================ entry point
 
 
-SUBCHECKS = [("a", chk_a_get_params), ("b", chk_b_roundtrip), ("c", chk_c_twins), ("d", chk_d_reject),
+SUBCHECKS = [("a", chk_a_get_params), ("b", chk_b_roundtrip), ("c", chk_c_twins), ("c-used", chk_c_used_twins), ("d", chk_d_reject),
              ("e", chk_e_attrs), ("g", chk_g_clone), ("h", chk_h_ownership), ("i", chk_i_copies), ("j", chk_j_interleave)]
-NEEDS_SKLEARN = {"a", "b", "c", "d", "e", "g"}
+NEEDS_SKLEARN = {"a", "b", "c", "c-used", "d", "e", "g"}
 
 
 def chk_replace_and_nested(ctx):
